@@ -311,7 +311,11 @@ func (c *Conn) shutdown(abortErr error) error {
 			releaseList(a.resultCapTable).release()
 			// Because shutdown is now the only task running, no need to
 			// acquire sender lock.
-			a.releaseMsg()
+			if a.releaseMsg != nil {
+				// Placeholder answers (failed return allocation, call to
+				// an unknown target) have no message.
+				a.releaseMsg()
+			}
 		}
 	}
 
